@@ -708,7 +708,7 @@ def streams(tier, rng):
     yield "random_roundtrip_suffix", "exact", cases
     # 9. targeted malformed
     cases = []
-    for _ in range(120 if big else 24):
+    for _ in range(120 if big else 19):
         a = _rand_fin(rng, small=True, nresp=rng.choice([0, 1, 2]))
         if valid_fin(a):
             hl = 4 + 2 * a[0][1] + a[0][5]
